@@ -18,7 +18,12 @@ use serde::de::DeserializeOwned;
 use serde::Serialize;
 use serde_json::{json, Value};
 
-pub const VERIF_ROOT: &str = "/verif";
+pub const DEFAULT_ROOT: &str = "/verif";
+
+/// root of the verification tree (overridable so that a scratch copy can run beside the real one)
+pub fn verif_root() -> String {
+    std::env::var("VERIF_ROOT").unwrap_or_else(|_| DEFAULT_ROOT.to_string())
+}
 
 #[derive(Clone, Copy, Debug, PartialEq, Eq)]
 pub enum Tier {
@@ -210,7 +215,7 @@ pub struct KnownEntry {
 }
 
 pub fn load_known(prop: &str) -> Vec<KnownEntry> {
-    let p = Path::new(VERIF_ROOT).join("known_findings.jsonl");
+    let p = Path::new(&verif_root()).join("known_findings.jsonl");
     let mut out = vec![];
     if let Ok(s) = std::fs::read_to_string(&p) {
         for line in s.lines() {
@@ -693,7 +698,7 @@ pub fn main_for(prop: Property) -> ! {
     let mut violations: Vec<ViolationRec> = vec![];
     let mut known_hit: BTreeMap<String, u64> = BTreeMap::new();
     let mut replayed = 0u64;
-    let corpus_dir = Path::new(VERIF_ROOT).join("replays").join(id);
+    let corpus_dir = Path::new(&verif_root()).join("replays").join(id);
     if let Ok(rd) = std::fs::read_dir(&corpus_dir) {
         let mut files: Vec<PathBuf> = rd.filter_map(|e| e.ok().map(|e| e.path())).filter(|p| p.extension().map(|e| e == "json").unwrap_or(false)).collect();
         files.sort();
@@ -823,7 +828,7 @@ pub fn main_for(prop: Property) -> ! {
         }
     }
 
-    let fail_dir = Path::new(VERIF_ROOT).join("failures").join(id);
+    let fail_dir = Path::new(&verif_root()).join("failures").join(id);
     let mut evaluations = 0u64;
     let mut distinct = 0u64;
     let mut classes: BTreeMap<String, u64> = BTreeMap::new();
@@ -939,7 +944,7 @@ pub fn main_for(prop: Property) -> ! {
         "wall_s": wall,
         "violations": violations.len(),
     });
-    let ev_dir = Path::new(VERIF_ROOT).join("evidence");
+    let ev_dir = Path::new(&verif_root()).join("evidence");
     let _ = std::fs::create_dir_all(&ev_dir);
     let ev_path = ev_dir.join(format!("{}.json", id));
     if args.only.is_none() {
